@@ -75,6 +75,14 @@ def di_shapes(tier):
         t1 = ctor_op(1, f1, in_code(f0, "r"), "s", lc1, cl1)
         for hm0, hm1 in [("m", "r"), ("m", "v"), ("r", "m"), (None, "m"), ("m", "m")]:
             shapes.append([t0, t1, {"k": "route", "c": handler_id(0, [in_code(f0, hm0), in_code(f1, hm1), "0"])}])
+    # DI-M2: `&mut` from the handler onto a T0 that another constructor consumes BY VALUE (or borrows)
+    # upstream: T1 <- T0 in {v, r}, handler (&mut T0, T1 in {v, r})
+    for (f0, cl0), lc0, m10, hm1 in itertools.product(FLAV_CL, RT, ["v", "r"], ["v", "r"]):
+        if m10 == "r" and tier == "quick":
+            continue  # covered by DI-M
+        t0 = ctor_op(0, f0, "0", "s", lc0, cl0)
+        t1 = ctor_op(1, "P", in_code(f0, m10), "s", "request_scoped", None)
+        shapes.append([t0, t1, {"k": "route", "c": handler_id(0, [in_code(f0, "m"), in_code("P", hm1), "0"])}])
     # DI-A: cloning policy on the annotation (`#[request_scoped(clone_if_necessary)]`), kept or
     # overridden (`.never_clone()`) at registration; the value needs a clone in every member
     for cl0 in (None, "never_clone", "clone_if_necessary"):
@@ -368,6 +376,13 @@ def err_shapes(tier):
             # two levels: the handlers of the middle level sit between root and the failing components
             shapes.append(eh_set(root_eh, 1) + [{"k": "nest", "bp": {"ops": eh_set(nested_eh, 2) + obs + [
                 {"k": "nest", "bp": {"ops": inner[len(eh_set(nested_eh, 2)):]}}]}}])
+    # ERR-MUT: the Ok value of a fallible constructor borrowed `&mut` by the handler (and by a middleware)
+    for f0, cl0 in (("P", None), ("K", "clone_if_necessary")):
+        for hf in (False, True):
+            t0 = ctor_op(0, f0, "0", "f", "request_scoped", cl0)
+            shapes.append([t0, {"k": "route", "c": handler_id(0, [in_code(f0, "m"), "0", "0"], hf)}])
+        shapes.append([ctor_op(0, f0, "0", "f", "request_scoped", cl0), {"k": "pre", "c": mw_id("pre", 1, False, in_code(f0, "m"))},
+                       {"k": "route", "c": handler_id(0, [in_code(f0, "r"), "0", "0"])}])
     # ERR-OBS3: three error observers in scope of the failing route, registered on its own blueprint and / or
     # inherited from the parent (split a + b = 3), with the framework default, the user fallback and specific
     # error handlers; ERR-OBSLATE: observers the parent registers AFTER `nest` (they must not reach the
